@@ -107,7 +107,7 @@ theorem C07_isAligned_eq_spec {P : Prims} {T : DomainTheory} {WF : Str → Prop}
 
 /-- model-side per-result tests (helpers for the loop invariant) -/
 def mDkimIs (P : Prims) (f : Str) (r : Record) (val : Val) : AuthRes → Bool
-  | .dkim v d => isAligned P f d r.adkim && v == val
+  | .dkim v d _ => isAligned P f d r.adkim && v == val
   | _ => false
 
 def mSpfIs (P : Prims) (f : Str) (r : Record) (val : Val) : AuthRes → Bool
@@ -115,7 +115,7 @@ def mSpfIs (P : Prims) (f : Str) (r : Record) (val : Val) : AuthRes → Bool
   | _ => false
 
 def isDkim : AuthRes → Bool
-  | .dkim _ _ => true
+  | .dkim _ _ _ => true
   | _ => false
 
 def isSpf : AuthRes → Bool
@@ -128,7 +128,7 @@ def spfNonEmpty : AuthRes → Bool
 
 /-- the identifiers of a result are names under consideration -/
 def WFRes (WF : Str → Prop) : AuthRes → Prop
-  | .dkim _ d => WF d
+  | .dkim _ d _ => WF d
   | .spf _ mf h => WF mf ∧ WF h
   | .other => True
 
@@ -144,7 +144,7 @@ theorem foldl_step_flags (P : Prims) (f : Str) (r : Record) (rs : List AuthRes) 
     simp only [List.foldl_cons, List.any_cons]
     have := ih (step P f r a x)
     cases x with
-    | dkim v d => simp [step, mDkimIs, mSpfIs, isDkim, Bool.or_assoc] at this ⊢; exact this
+    | dkim v d i => simp [step, mDkimIs, mSpfIs, isDkim, Bool.or_assoc] at this ⊢; exact this
     | spf v mf h => simp [step, mDkimIs, mSpfIs, isDkim, Bool.or_assoc] at this ⊢; exact this
     | other => simp [step, mDkimIs, mSpfIs, isDkim] at this ⊢; exact this
 
@@ -158,7 +158,7 @@ theorem foldl_step_spfVal_noSpf (P : Prims) (f : Str) (r : Record) (rs : List Au
     simp only [List.foldl_cons]
     rw [ih _ h.2]
     cases x with
-    | dkim v d => rfl
+    | dkim v d i => rfl
     | spf v mf hh => simp [isSpf] at h
     | other => rfl
 
@@ -170,7 +170,7 @@ theorem any_spfNonEmpty_of_noSpf (rs : List AuthRes) (h : rs.any isSpf = false) 
     simp only [List.any_cons, Bool.or_eq_false_iff] at h ⊢
     refine ⟨?_, ih h.2⟩
     cases x with
-    | dkim v d => rfl
+    | dkim v d i => rfl
     | spf v mf hh => simp [isSpf] at h
     | other => rfl
 
@@ -183,9 +183,9 @@ theorem foldl_step_spfVal (P : Prims) (f : Str) (r : Record) (rs : List AuthRes)
   | cons x rest ih =>
     simp only [List.foldl_cons, List.any_cons]
     cases x with
-    | dkim v d =>
+    | dkim v d i =>
       have h1' : (rest.filter isSpf).length ≤ 1 := by simpa [List.filter, isSpf] using h1
-      rw [ih (step P f r a (.dkim v d)) (by simpa [step] using ha) h1']
+      rw [ih (step P f r a (.dkim v d i)) (by simpa [step] using ha) h1']
       simp [spfNonEmpty]
     | other =>
       have h1' : (rest.filter isSpf).length ≤ 1 := by simpa [List.filter, isSpf] using h1
@@ -218,7 +218,7 @@ two tests the loop performs -/
 theorem any_aligned_split {P : Prims} {T : DomainTheory} {WF : Str → Prop} (L : Laws P T WF)
     (f : Str) (r : Record) (val : Val) (rs : List AuthRes) (hf : WF f) (hrs : ∀ x ∈ rs, WFRes WF x) :
     (rs.any fun
-      | .dkim v d => v == val && specAligned T r.adkim f d
+      | .dkim v d _ => v == val && specAligned T r.adkim f d
       | .spf v mf h => v == val && specAligned T r.aspf f (specSpfIdentity mf h)
       | .other => false)
     = (rs.any (mDkimIs P f r val) || rs.any (mSpfIs P f r val)) := by
@@ -230,7 +230,7 @@ theorem any_aligned_split {P : Prims} {T : DomainTheory} {WF : Str → Prop} (L 
     simp only [List.any_cons]
     rw [ih']
     cases x with
-    | dkim v d =>
+    | dkim v d i =>
       have := C07_isAligned_eq_spec L f d r.adkim hf hx
       simp only [mDkimIs, mSpfIs, this, Bool.false_or]
       cases (v == val) <;> cases specAligned T r.adkim f d <;> simp
@@ -658,6 +658,86 @@ theorem C07_bad_author_any_timing (P : Prims) (dns : Str → Lookup) (arrive : S
   simp [applyResults, this]
 
 
+/-! ## the DKIM signing identity (i= / header.i) takes no part in verdict or action
+
+DMARC aligns a signature on its d= domain only (RFC 7489 §3.1.1); the `Identifier` of a
+`DKIMResult` - absent, `@d`, `user@sub.d`, another domain, malformed - is not an input of the
+decision.  Stated for result lists of any length that agree up to these identities. -/
+
+/-- a result without its DKIM signing identity -/
+def eraseIdent : AuthRes → AuthRes
+  | .dkim v d _ => .dkim v d []
+  | .spf v f h => .spf v f h
+  | .other => .other
+
+/-- two result lists that differ at most in the signing identities of their DKIM results -/
+def SameUpToIdent (rs rs' : List AuthRes) : Prop := rs.map eraseIdent = rs'.map eraseIdent
+
+theorem step_eraseIdent (P : Prims) (f : Str) (r : Record) (a : Acc) (x : AuthRes) :
+    step P f r a (eraseIdent x) = step P f r a x := by
+  cases x <;> rfl
+
+theorem foldl_step_eraseIdent (P : Prims) (f : Str) (r : Record) (rs : List AuthRes) (a : Acc) :
+    (rs.map eraseIdent).foldl (step P f r) a = rs.foldl (step P f r) a := by
+  induction rs generalizing a with
+  | nil => rfl
+  | cons x rs ih => simp only [List.map_cons, List.foldl_cons, step_eraseIdent, ih]
+
+theorem evaluateAlignment_eraseIdent (P : Prims) (f : Str) (r : Record) (rs : List AuthRes) :
+    evaluateAlignment P f r (rs.map eraseIdent) = evaluateAlignment P f r rs := by
+  unfold evaluateAlignment
+  rw [foldl_step_eraseIdent]
+
+theorem apply_eraseIdent (P : Prims) (data : VerifyData) (rs : List AuthRes) (rnd : Nat) :
+    apply P data (rs.map eraseIdent) rnd = apply P data rs rnd := by
+  unfold apply
+  cases data <;> simp only [evaluateAlignment_eraseIdent]
+
+/-- **The verdict ignores the signing identity.**  For every header, resolver, implementation of the
+primitives and die, and any two result lists (any length, any mix) that agree up to the
+identities of their DKIM results: the same evaluation (value, reason, alignment flags) and the same
+policy to apply. -/
+theorem C07_verdict_ignores_dkim_identity (P : Prims) (dns : Str → Lookup) (hdr : List FieldParse)
+    (rs rs' : List AuthRes) (rnd : Nat) (h : SameUpToIdent rs rs') :
+    verify P dns hdr rs rnd = verify P dns hdr rs' rnd := by
+  unfold verify
+  rw [← apply_eraseIdent P _ rs, ← apply_eraseIdent P _ rs', h]
+
+/-- … and so does the reply of the pipeline, for every schedule and split over check blocks. -/
+theorem C07_reply_ignores_dkim_identity (P : Prims) (dns : Str → Lookup) (arrive arrive' : Str → Nat)
+    (hdr : List FieldParse) (blocks blocks' : List (List AuthRes)) (rnd : Nat) (priorQ : Bool)
+    (h : SameUpToIdent blocks.flatten blocks'.flatten) :
+    pipelineBody P dns arrive hdr blocks rnd priorQ = pipelineBody P dns arrive' hdr blocks' rnd priorQ := by
+  rw [C07_answer_timing_irrelevant, C07_answer_timing_irrelevant,
+    C07_verdict_ignores_dkim_identity P dns hdr _ _ rnd h]
+
+/-- The specification does not mention the identity either. -/
+theorem C07_spec_ignores_dkim_identity (T : DomainTheory) (dns : Str → Lookup) (hdr : List FieldParse)
+    (rs rs' : List AuthRes) (priorQ : Bool) (h : SameUpToIdent rs rs') :
+    expect T dns hdr rs priorQ = expect T dns hdr rs' priorQ := by
+  have key : ∀ rs : List AuthRes, expect T dns hdr (rs.map eraseIdent) priorQ = expect T dns hdr rs priorQ := by
+    intro rs
+    have e1 : ∀ r f, hasAlignedPass T r f (rs.map eraseIdent) = hasAlignedPass T r f rs := by
+      intro r f
+      simp only [hasAlignedPass, List.any_map]
+      congr 1; funext x; cases x <;> rfl
+    have e2 : ∀ r f, hasAlignedTempError T r f (rs.map eraseIdent) = hasAlignedTempError T r f rs := by
+      intro r f
+      simp only [hasAlignedTempError, List.any_map]
+      congr 1; funext x; cases x <;> rfl
+    have e3 : bothEvaluated (rs.map eraseIdent) = bothEvaluated rs := by
+      simp only [bothEvaluated, List.any_map]
+      congr 1 <;> (congr 1; funext x; cases x <;> rfl)
+    unfold expect
+    simp only [e1, e2, e3]
+  rw [← key rs, ← key rs', h]
+
+/-- non-vacuity: lists that differ in the identities (absent, `s.e.c`, `x.c`) are related, lists that
+differ in d= are not -/
+example : SameUpToIdent [.dkim .pass [101, 46, 99] [], .spf .fail [] []] [.dkim .pass [101, 46, 99] [115, 46, 101, 46, 99], .spf .fail [] []] := rfl
+example : ¬ SameUpToIdent [.dkim .pass [101, 46, 99] []] [.dkim .pass [120, 46, 99] []] := by
+  unfold SameUpToIdent; decide
+
 /-! ## non-vacuity: a concrete instance of the laws and of every hypothesis
 
 A toy public-suffix list in which every top-level label is a public suffix: `c`; names `e.c`
@@ -753,7 +833,7 @@ theorem toyDns_respects : DnsRespects toyT toyDns := by
 identity: all hypotheses of the main theorem hold, the subdomain policy (quarantine) is applied. -/
 example :
     let hdr := [FieldParse.addrs [some n_sec]]
-    let rs := [AuthRes.dkim .pass n_xc, .other, .spf .temperror [] n_EC, .dkim .none []]
+    let rs := [AuthRes.dkim .pass n_xc [], .other, .spf .temperror [] n_EC, .dkim .none [] []]
     (∀ d, specAuthor hdr = some d → toyWF d) ∧ (∀ x ∈ rs, WFRes toyWF x) ∧
     (rs.filter isSpf).length ≤ 1 ∧ bothEvaluated rs = true ∧
     discover toyT toyDns n_sec = .found ⟨.strict, .relaxed, .reject, some .quarantine, none⟩ true ∧
@@ -772,9 +852,9 @@ example :
 /-- … and the main theorem applies to it: every hypothesis is discharged. -/
 example :
     fateOf (applyResults false (verify toyP toyDns [FieldParse.addrs [some n_sec]]
-      [AuthRes.dkim .pass n_xc, .other, .spf .temperror [] n_EC, .dkim .none []] 7)) = some (.accepted true) := by
+      [AuthRes.dkim .pass n_xc [], .other, .spf .temperror [] n_EC, .dkim .none [] []] 7)) = some (.accepted true) := by
   have h := (C07_model_eq_spec toyLaws toyDns [FieldParse.addrs [some n_sec]]
-    [AuthRes.dkim .pass n_xc, .other, .spf .temperror [] n_EC, .dkim .none []] 7 false toyDns_respects
+    [AuthRes.dkim .pass n_xc [], .other, .spf .temperror [] n_EC, .dkim .none [] []] 7 false toyDns_respects
     (by intro d hd; cases hd; decide)
     (by
       intro x hx
@@ -795,38 +875,38 @@ example :
 
 /-- the organizational domain itself, strict DKIM alignment: a signature of the subdomain does
 not align, SPF of the other spelling does (relaxed) → pass; without it → 550. -/
-example : (verify toyP toyDns [.addrs [some n_EC]] [.dkim .pass n_sec, .spf .pass n_ec n_xc] 0).1.val = .pass := by decide
-example : applyResults false (verify toyP toyDns [.addrs [some n_EC]] [.dkim .pass n_sec, .spf .fail n_ec n_xc] 0)
+example : (verify toyP toyDns [.addrs [some n_EC]] [.dkim .pass n_sec [], .spf .pass n_ec n_xc] 0).1.val = .pass := by decide
+example : applyResults false (verify toyP toyDns [.addrs [some n_EC]] [.dkim .pass n_sec [], .spf .fail n_ec n_xc] 0)
     = .refuse 550 5 7 1 := by decide
 /-- aligned DKIM temperror under reject → 450 -/
-example : applyResults false (verify toyP toyDns [.addrs [some n_ec]] [.dkim .temperror n_EC, .spf .fail n_xc n_xc] 0)
+example : applyResults false (verify toyP toyDns [.addrs [some n_ec]] [.dkim .temperror n_EC [], .spf .fail n_xc n_xc] 0)
     = .refuse 450 4 7 1 := by decide
 /-- a temporary lookup failure → 450 whatever the results -/
-example : applyResults true (verify toyP (fun _ => .temp) [.addrs [some n_ec]] [.dkim .pass n_ec, .spf .pass n_ec n_ec] 0)
+example : applyResults true (verify toyP (fun _ => .temp) [.addrs [some n_ec]] [.dkim .pass n_ec [], .spf .pass n_ec n_ec] 0)
     = .refuse 450 4 7 1 := by decide
 /-- two From fields, the first one empty → no pass (even with aligned passes) -/
-example : (verify toyP toyDns [.addrs [], .addrs [some n_ec]] [.dkim .pass n_ec, .spf .pass n_ec n_ec] 0).1.val = .permerror := by decide
+example : (verify toyP toyDns [.addrs [], .addrs [some n_ec]] [.dkim .pass n_ec [], .spf .pass n_ec n_ec] 0).1.val = .permerror := by decide
 /-- the `pct` draw matters only for partial percentages -/
-example : (apply toyP (.record n_ec n_ec ⟨.relaxed, .relaxed, .reject, none, some 50⟩) [.dkim .fail n_ec, .spf .fail n_ec n_ec] 51).2 = .none := by decide
-example : (apply toyP (.record n_ec n_ec ⟨.relaxed, .relaxed, .reject, none, some 50⟩) [.dkim .fail n_ec, .spf .fail n_ec n_ec] 50).2 = .reject := by decide
+example : (apply toyP (.record n_ec n_ec ⟨.relaxed, .relaxed, .reject, none, some 50⟩) [.dkim .fail n_ec [], .spf .fail n_ec n_ec] 51).2 = .none := by decide
+example : (apply toyP (.record n_ec n_ec ⟨.relaxed, .relaxed, .reject, none, some 50⟩) [.dkim .fail n_ec [], .spf .fail n_ec n_ec] 50).2 = .reject := by decide
 
 /-- The timing statement is not vacuous: the model of the hand-off IS sensitive to a context that
 is cancelled early.  A message failing `p=reject` whose policy answer arrives while the second
 block's checks run: refused by the code as it is (context of `Body`), … -/
-example : pipelineBody toyP toyDns (fun _ => 2) [.addrs [some n_ec]] [[.dkim .fail n_xc], [.spf .fail n_xc n_xc]] 0 false
+example : pipelineBody toyP toyDns (fun _ => 2) [.addrs [some n_ec]] [[.dkim .fail n_xc []], [.spf .fail n_xc n_xc]] 0 false
     = .refuse 550 5 7 1 := by decide
 /-- … accepted unflagged when the lookup's context is cancelled once the first block is done (the
 cancelled lookup ends in a non-temporary error: permerror, no policy), … -/
-example : pipelineBodyWith (some 1) toyP toyDns (fun _ => 2) [.addrs [some n_ec]] [[.dkim .fail n_xc], [.spf .fail n_xc n_xc]] 0 false
+example : pipelineBodyWith (some 1) toyP toyDns (fun _ => 2) [.addrs [some n_ec]] [[.dkim .fail n_xc []], [.spf .fail n_xc n_xc]] 0 false
     = .accept false := by decide
 /-- … and a subdomain's message escapes the quarantine flag (`sp=quarantine`) when only the answer
 for the organizational domain (the second query) is late. -/
-example : pipelineBodyWith (some 1) toyP toyDns (fun n => if n = n_sec then 0 else 3) [.addrs [some n_sec]] [[.dkim .fail n_xc, .spf .fail n_xc n_xc]] 0 false
+example : pipelineBodyWith (some 1) toyP toyDns (fun n => if n = n_sec then 0 else 3) [.addrs [some n_sec]] [[.dkim .fail n_xc [], .spf .fail n_xc n_xc]] 0 false
     = .accept false := by decide
-example : pipelineBody toyP toyDns (fun n => if n = n_sec then 0 else 3) [.addrs [some n_sec]] [[.dkim .fail n_xc, .spf .fail n_xc n_xc]] 0 false
+example : pipelineBody toyP toyDns (fun n => if n = n_sec then 0 else 3) [.addrs [some n_sec]] [[.dkim .fail n_xc [], .spf .fail n_xc n_xc]] 0 false
     = .accept true := by decide
 /-- an answer that is there before the early cancellation is used -/
-example : pipelineBodyWith (some 1) toyP toyDns (fun _ => 1) [.addrs [some n_ec]] [[.dkim .fail n_xc], [.spf .fail n_xc n_xc]] 0 false
+example : pipelineBodyWith (some 1) toyP toyDns (fun _ => 1) [.addrs [some n_ec]] [[.dkim .fail n_xc []], [.spf .fail n_xc n_xc]] 0 false
     = .refuse 550 5 7 1 := by decide
 
 
